@@ -255,8 +255,38 @@ def okTop : SStmt → Bool
 def okProg (p : SProg) : Bool := p.args.all (fun a => userName a.1) && p.body.all okTop
 
 
-/-- the arguments as the rewriter sees them: no tuple-typed argument -/
-def aargsOf (p : SProg) : Args := p.args.map fun a => (a.1, none)
+mutual
+/-- the annotation of a type, as `ReplaceTypeAnn` leaves it -/
+def tyAnn : Ty → SExp
+  | .bool => .name "bool"
+  | .qint w => .sub (.name "Qint") (.const (.int w))
+  | .qchar => .name "Qchar"
+  | .tuple ts => .sub (.name "Tuple") (.tuple (tyAnns ts))
+def tyAnns : List Ty → List SExp
+  | [] => []
+  | t :: ts => tyAnn t :: tyAnns ts
+end
 
+/-- the arguments as the rewriter sees them -/
+def aargsOf (p : SProg) : Args := p.args.map fun a => (a.1, tyAnn a.2)
+
+
+/-! ## python's meaning of the expression forms `ast2ast` rewrites, on decoded values
+
+The values of a tuple-typed variable are lists (of lists) of `SVal`s; the theorems `C01_index1`, `C01_index2`,
+`C01_len_row` … of `QV/Props/C01.lean` say that the expressions the rewriter builds have these meanings. -/
+
+/-- `t[x]` -/
+def pyIndex1 (vals : List SVal) (x : Nat) : Option SVal := vals[x]?
+
+/-- `m[x][y]` -/
+def pyIndex2 (rows : List (List SVal)) (x y : Nat) : Option SVal := (rows[x]?).bind (·[y]?)
+
+/-- `sum(…)` of `Qint[w]` values: the fixed-width sum -/
+def pySum (w : Nat) (vals : List Nat) : SVal := .int w (vals.sum % 2 ^ w)
+
+/-- `all(…)` / `any(…)` of bools -/
+def pyAll (bs : List Bool) : SVal := .bool (bs.all id)
+def pyAny (bs : List Bool) : SVal := .bool (bs.any id)
 
 end QV.A2A
